@@ -89,3 +89,18 @@ let run_h inp obs : string option * string option =
   | _ -> (Some "unparsable C07H case", None)
 let () = Evalreg.register "C07H" run_h
 let () = Evalreg.register "C07" run; Evalreg.register "C07X" run; Evalreg.register "C07W" run_w
+
+(* C07I: two requests with one query string, the first held after routing while the second is served *)
+let run_i inp obs : string option * string option =
+  match inp, obs with
+  | ["C07I"; nq; ca; cb], [a1; b1; a2; b2] ->
+    let cap s = match String.split_on_char '/' s with u :: _ -> u | [] -> "" in
+    let what = Printf.sprintf "GET /c07i/{user_id} with %s query values: request A (capture %s) held after routing while request B (capture %s, same query string) was served: " nq ca cb in
+    if a1 = "-" || b1 = "-" || a2 = "-" || b2 = "-" then (Some (what ^ "a handler was not reached (" ^ String.concat " " obs ^ ")"), None)
+    else if cap a1 <> ca || cap b1 <> cb then (Some (what ^ "served alone, the path-bound field does not carry the capture (" ^ a1 ^ " " ^ b1 ^ ")"), None)
+    else if cap a2 <> ca then (Some (what ^ "A's handler received user_id " ^ cap a2 ^ ", not its own capture"), None)
+    else if cap b2 <> cb then (Some (what ^ "B's handler received user_id " ^ cap b2 ^ ", not its own capture"), None)
+    else if a2 <> a1 || b2 <> b1 then (Some (what ^ "the messages differ from those of the same requests served alone (" ^ String.concat " " obs ^ ")"), None)
+    else (None, None)
+  | _ -> (Some "unparsable C07I case", None)
+let () = Evalreg.register "C07I" run_i
